@@ -243,7 +243,7 @@ def stack(images: list[darsia.Image]) -> darsia.Image:
         darsia.Image: stackes image
 
     """
-    image = images[0]
+    image = images[0].copy()
     for i in range(1, len(images)):
         image.append(images[i])
 
